@@ -260,13 +260,66 @@ func ruleC09(c *Ctx) {
 	for _, r := range roots {
 		isRoot[r] = true
 	}
+	// Kernels: the entry points, the sub-kernels and every exported function of the cone are analysed on their own
+	// (pointer parameters assumed non-nil, checked at each module call site). Unexported helpers are inlined into
+	// those kernels, so their instructions are checked in every calling context; a helper that was summarised
+	// instead of inlined at some site (recursion, depth) is added to the work list and analysed on its own too.
+	inCone := map[*ssa.Function]bool{}
 	for _, fn := range cone {
-		if fn.Parent() != nil {
-			continue // closures are analysed inside their parent
+		inCone[fn] = true
+	}
+	var work []*ssa.Function
+	queued := map[*ssa.Function]bool{}
+	for _, fn := range cone {
+		if fn.Parent() != nil || isBoundWrapper(fn) {
+			continue // closures and method-value wrappers are analysed inside their parent
 		}
+		if isRoot[fn] || c09SubKernels[shortFn(fn)] || (fn.Object() != nil && fn.Object().Exported()) {
+			work = append(work, fn)
+			queued[fn] = true
+		}
+	}
+	covered := map[*ssa.Function]bool{}
+	for {
+		if len(work) == 0 {
+			// anything in the cone that no kernel has entered yet (reached only through values the engine does
+			// not resolve) is analysed on its own
+			for _, fn := range cone {
+				if fn.Parent() == nil && !isBoundWrapper(fn) && !covered[fn] && !queued[fn] {
+					queued[fn] = true
+					work = append(work, fn)
+				}
+			}
+			if len(work) == 0 {
+				break
+			}
+		}
+		fn := work[0]
+		work = work[1:]
 		res := c.intraKernel(fn)
 		if res == nil {
 			continue
+		}
+		for _, t := range res.Terms {
+			for _, e := range t.St.events {
+				if e.Kind == EvEnter && e.CalleeFn != nil {
+					covered[e.CalleeFn] = true
+				}
+			}
+		}
+		covered[fn] = true
+		if en := c.Engines[len(c.Engines)-1]; en != nil {
+			var more []*ssa.Function
+			for nf := range en.NotInlined {
+				if inCone[nf] && !queued[nf] && nf.Parent() == nil {
+					more = append(more, nf)
+				}
+			}
+			sort.Slice(more, func(i, j int) bool { return more[i].String() < more[j].String() })
+			for _, nf := range more {
+				queued[nf] = true
+				work = append(work, nf)
+			}
 		}
 		nFn++
 		for _, t := range res.Terms {
@@ -348,7 +401,15 @@ func ruleC09(c *Ctx) {
 			}
 		}
 	}
-	c.count("C09/functions-in-cone", nFn)
+	nCov := 0
+	for _, fn := range cone {
+		if covered[fn] {
+			nCov++
+		}
+	}
+	c.count("C09/kernels", nFn)
+	c.floor("C09/kernels", 12)
+	c.count("C09/functions-in-cone", nCov)
 	c.floor("C09/functions-in-cone", 20)
 	c.count("C09-R1/index-slice-events", nIdx)
 	c.floor("C09-R1/index-slice-events", 14)
